@@ -10,6 +10,7 @@ from dalimc.spec import ref_codec as R
 
 ID = "C04"
 OPTIMISED_STRIDE = {"quick": 8, "thorough": 8}      # every k-th shard once more in an interpreter started with -O
+TRACE_STRIDE = {"quick": 9, "thorough": 9}      # every k-th shard once more with logging enabled down to TRACE
 CHAIN_STRIDE = {'quick': 10, 'thorough': 20}      # every k-th shard is re-run in chains inside one process (non-initial process states)
 LEVEL = "exploration"
 ENGINE = "E1"
